@@ -101,8 +101,15 @@ def run(rep, tier, seed, b):
         rep.count('tables with capacity 0', int(any(v == 0 for v in r['table'].values())))
         rep.count('tables with capacity > 8', int(any(v > 8 for v in r['table'].values())))
     # "reflects the table in force at the time of the call": along histories (C12 holds the state part)
-    for _ in range(60 if tier == 'quick' else 600):
-        ops = H.random_history(rng, translate=False) + [['get'], ['alpha']]
+    targeted = []
+    for _ in range(120 if tier == 'quick' else 1200):
+        d0 = H.random_dict(rng, valid=True)
+        k = rng.choice([kv[0] for kv in d0 if kv[0] != '?'] or ['C'])
+        targeted.append([['new', d0], ['set', ['held', 0]], ['alpha'], ['dec', '[C][N][O]', False, False],
+                         ['mut', 0, rng.choice([['setitem', k, rng.choice([0, 1, 5])], ['setitem', 'N', rng.choice([0, 1, 5])], ['del', k], ['setitem', 'Xe', 3]])],
+                         ['get'], ['alpha']])
+    hists = [H.random_history(rng, translate=False) + [['get'], ['alpha']] for _ in range(60 if tier == 'quick' else 600)] + targeted
+    for ops in hists:
         im = H.impl_run(ops)
         rep.evaluations += 1
         rep.impl_traces += 1
